@@ -6,7 +6,7 @@ import z3
 from . import smt
 from .values import (
     Unsupported, Sym, Ref, TupleV, FuncV, LambdaV, BuiltinV, ClassV, ModuleV, SuperV, Raised, ExcSym,
-    PyList, SeqV, PyDict, Obj, ArrState, DataView, MaskView, Idx, StackState, Slice, is_concrete, num_term, isint_of,
+    PyList, SeqV, PyDict, Bag, Obj, ArrState, DataView, MaskView, Idx, StackState, Slice, is_concrete, num_term, isint_of,
     is_num, zand, zor, znot,
 )
 
@@ -231,7 +231,7 @@ class BuiltinMixin(object):
 
     def bi_set(self, st, args, kw):
         if not args:
-            yield st, st.alloc(Obj(ClassV("SetOf"), {"len": 0, "seq": None}))
+            yield st, st.alloc(Bag("set"))
             return
         (v,) = args
         for st1, seq in self.as_sequence(st, v):
@@ -611,9 +611,19 @@ class BuiltinMixin(object):
         o = st.get(args[0])
         yield st, st.alloc(PyList(items=list(o.items) if o.items is not None else None, seq=o.seq))
 
+    def bi_bag_method(self, st, args, kw):
+        # any method of an untracked local container: no effect outside it, an unconstrained result (A-LOCALS)
+        yield st, st.alloc(Bag("result"))
+
     def bi_dict_get(self, st, args, kw):
         ref, key = args[0], args[1]
         default = args[2] if len(args) > 2 else None
+        d0 = st.get(ref)
+        if not isinstance(key, str) and isinstance(d0, PyDict) and not d0.present and getattr(d0, "total", None) is None \
+                and st.is_fresh(ref):
+            st.set(ref, Bag("dict"))
+            yield st, st.alloc(Bag("dict.get"))
+            return
         for r in self.dict_get(st, st.get(ref), key, default):
             yield r
 
